@@ -50,6 +50,8 @@ def gen_cases(tier, seed):
                 for kind in pdugen.KINDS:
                     i += 1
                     cases.append({"t": "fuzz", "side": side, "target": target, "mode": mode, "seed": seed * 1_000_003 + i, "first_kind": kind})
+                    # the same PDU handed over in the first call after a timer of the handler expired (timer and PDU looked at in one call)
+                    cases.append({"t": "fuzz", "side": side, "target": target, "mode": mode, "seed": seed * 1_000_003 + i, "first_kind": kind, "first_tick": True})
     # bounded exhaustive enumeration: every sequence of the small alphabets up to the depth, on fresh handlers
     import itertools
 
@@ -235,11 +237,19 @@ def run_fuzz(case):
                 if raw is None:
                     continue
                 act = "pdu"
+                if case.get("first_tick"):
+                    vclock.advance_to_next_expiry()
+                    actions_log.append("clock")
+                    obs["pdus_together_with_timer_expiry"] = obs.get("pdus_together_with_timer_expiry", 0) + 1
             elif r < 0.68:
                 kind, raw, desc = rand_pdu(rng, w, ep, size)
                 if raw is None:
                     continue
                 act = "pdu"
+                if rng.random() < 0.08:
+                    vclock.advance_to_next_expiry()
+                    actions_log.append("clock")
+                    obs["pdus_together_with_timer_expiry"] = obs.get("pdus_together_with_timer_expiry", 0) + 1
             elif r < 0.76:
                 act = "idle"
             elif r < 0.84:
@@ -385,7 +395,7 @@ def run_loop(case):
         actions = {}
         if rng.random() < 0.25:
             actions[rng.randrange(1, 14)] = [("cancel", rng.choice("SD"))]
-        r = Runner(w, plan=plan, max_expiries=30, max_rounds=2500, actions=actions)
+        r = Runner(w, plan=plan, max_expiries=30, max_rounds=2500, actions=actions, pacing=rng.choice([None, None, {"src_calls": 3}, {"src_calls": 6}, {"dst_calls": 3}, {"src_calls": 2, "dst_calls": 2}, {"dst_idle": 2}, {"src_idle": 2, "dst_calls": 2}]))
         try:
             w.put()
             outcome = r.run()
@@ -429,4 +439,4 @@ def finalize(ctx):
     return [], inc
 
 
-REQUIRED = {"resets_with_undrained_queue": 500, "enumerated_sequences": 5000, "fuzz_cases": 200, "pdus_to_busy_handler": 2000, "admission_rejections_checked": 500, "loop_cases": 200, "calls_returned": 2000}
+REQUIRED = {"pdus_together_with_timer_expiry": 500, "resets_with_undrained_queue": 500, "enumerated_sequences": 5000, "fuzz_cases": 200, "pdus_to_busy_handler": 2000, "admission_rejections_checked": 500, "loop_cases": 200, "calls_returned": 2000}
